@@ -110,6 +110,22 @@ Qed.
 Lemma sorted_strict_cons2 x y r : sorted_strict (x :: y :: r) = (x <? y) && sorted_strict (y :: r).
 Proof. reflexivity. Qed.
 
+Lemma sorted_strict_cons_intro x l : (forall y, In y l -> x < y) -> sorted_strict l = true -> sorted_strict (x :: l) = true.
+Proof.
+  intros H Hs. destruct l as [|y r]; [reflexivity|]. rewrite sorted_strict_cons2, Hs.
+  replace (x <? y) with true by (symmetry; apply Nat.ltb_lt, H; now left). reflexivity.
+Qed.
+
+Lemma sorted_filter_keys {A} (p : nat * A -> bool) (c : list (nat * A)) :
+  sorted_strict (map fst c) = true -> sorted_strict (map fst (filter p c)) = true.
+Proof.
+  induction c as [|e r IH]; intros H; [reflexivity|]. cbn [map] in H.
+  destruct (sorted_strict_head _ _ H) as [Hlt Hs]. cbn [filter]. destruct (p e); [|now apply IH].
+  cbn [map]. apply sorted_strict_cons_intro; [|now apply IH].
+  intros y Hy. apply Hlt. apply in_map_iff in Hy. destruct Hy as [e' [<- He']].
+  apply filter_In in He'. apply in_map. tauto.
+Qed.
+
 Lemma nat_ins_sorted x l : sorted_strict l = true -> sorted_strict (nat_ins x l) = true.
 Proof.
   induction l as [|z r IH]; intros H; [reflexivity|].
